@@ -79,6 +79,14 @@ func vfC20Versions() []*vfC20Version {
 		mk("v3", map[string]string{"dave": "pw4"}, []string{"dave@example.com"}),
 		mk("v4", map[string]string{"alice": "pw1", "bob": "pw2", "carol": "pw3", "dave": "pw4", "erin": "pw5"}, []string{"erin@example.com", "alice@example.com"}),
 	}
+	// a version without entries is a version like any other: once loaded, nobody is valid any more
+	empty := mk("empty", map[string]string{}, nil)
+	comment := mk("comment-only", map[string]string{}, nil)
+	comment.HTText, comment.EmText = "# all accounts removed\n", "# nobody\n"
+	// htpasswd: a file without a single user entry is refused by design ("doesn't contain a single valid user entry",
+	// the previous map stays); the e-mails file has no such rule
+	empty.HT, comment.HT = nil, nil
+	vs = append(vs, empty, comment)
 	bad := &vfC20Version{Name: "malformed", HTText: "alice:" + "x" + ":extra-field\nbob\n", EmText: "\"unterminated,quote\nx@y\n"}
 	// parses as CSV but one entry is not a SHA / bcrypt hash: the whole version must be refused
 	partial := &vfC20Version{Name: "partially-valid", HTText: vfSHAEntry("erin", "pw5") + "\nalice:plaintext-password\n", EmText: "erin@example.com\n\"broken\n"}
